@@ -1,7 +1,10 @@
 /-
   XMT.DecodeDns — model of the DNS transform's reader (c2/transform/dns.go `decodePacket`,
   `decodePackets`, `DNSTransform.Read`) after the bounds fix.  Every index expression of the Go code
-  is an `idx` that panics when out of range; the guards in front of them are the code's own.
+  is an `idx` and every reslice (`b[s : s+i]`, `b[i:]`) a `sliceP` / `sliceFromP`; they are `none`
+  out of range and the decoder then PANICS, as Go does.  The guards in front of them are the code's
+  own; that they suffice is what `read_fine` proves (each case discharges the bound from the guard),
+  that they are needed is shown in XMT/DecodeGuardsMatter.lean.
 -/
 import XMT.Decode
 
@@ -22,6 +25,32 @@ theorem idx_some {b : Bytes} {i : Nat} (h : i < b.length) : ∃ x, idx b i = som
   unfold idx
   rw [List.getElem?_eq_getElem h]
   exact ⟨_, rfl⟩
+
+/-- `b[lo:hi]`: `none` = "slice bounds out of range" -/
+def sliceP (b : Bytes) (lo hi : Nat) : Option Bytes :=
+  if hi > b.length ∨ lo > hi then none else some ((b.drop lo).take (hi - lo))
+
+/-- `b[lo:]` -/
+def sliceFromP (b : Bytes) (lo : Nat) : Option Bytes :=
+  if lo > b.length then none else some (b.drop lo)
+
+/-- the only rule for a reslice: it REQUIRES the bounds -/
+theorem sliceP_some {b : Bytes} {lo hi : Nat} (h1 : lo ≤ hi) (h2 : hi ≤ b.length) :
+    sliceP b lo hi = some ((b.drop lo).take (hi - lo)) := by
+  have : ¬ (hi > b.length ∨ lo > hi) := by omega
+  simp only [sliceP, this, if_false]
+
+theorem sliceP_none {b : Bytes} {lo hi : Nat} (h : b.length < hi ∨ hi < lo) : sliceP b lo hi = none := by
+  have : hi > b.length ∨ lo > hi := by omega
+  simp only [sliceP, this, if_true]
+
+theorem sliceFromP_some {b : Bytes} {lo : Nat} (h : lo ≤ b.length) : sliceFromP b lo = some (b.drop lo) := by
+  have : ¬ (lo > b.length) := by omega
+  simp only [sliceFromP, this, if_false]
+
+theorem sliceFromP_none {b : Bytes} {lo : Nat} (h : b.length < lo) : sliceFromP b lo = none := by
+  have : lo > b.length := h
+  simp only [sliceFromP, this, if_true]
 
 /-- the label walk of one question: `for i := 0; i < 64; { … }`; returns the new `s` -/
 def labels : Nat → Bytes → Nat → Nat → R Nat
@@ -52,7 +81,18 @@ def answers : Nat → Bytes → Nat → R Nat
       | some x, some y => answers c b (s + 10 + (((x <<< 8) ||| y) + 2))
       | _, _ => .panic "dns: b[s] (answer)"
 
-/-- the additional records carrying the payload; `w` = bytes written so far -/
+/-- the additional records carrying the payload; `w` = bytes written so far:
+```
+for i := 0; t > 0; t-- {
+    if s+12 > len(b) { return 0, io.ErrUnexpectedEOF }
+    if b[s] != 0xC0 || … || b[s+5] != 1 { return 0, io.ErrNoProgress }
+    s += 10
+    i = int(b[s])<<8 | int(b[s+1])
+    if s += 2; s+i > len(b) { return 0, io.ErrUnexpectedEOF }
+    if _, err := w.Write(b[s : s+i]); err != nil { return 0, err }
+    s += i
+}
+``` -/
 def additional : Nat → Bytes → Nat → Bytes → R (Nat × Bytes)
   | 0, _, s, w => .ok (s, w)
   | t + 1, b, s, w =>
@@ -64,15 +104,18 @@ def additional : Nat → Bytes → Nat → Bytes → R (Nat × Bytes)
           | some x, some y =>
             let i := (x <<< 8) ||| y
             if s + 12 + i > b.length then .err .ueof
-            else additional t b (s + 12 + i) (w ++ (b.drop (s + 12)).take i)
+            else match sliceP b (s + 12) (s + 12 + i) with
+              | some d => additional t b (s + 12 + i) (w ++ d)
+              | none => .panic "dns: b[s : s+i] (record data)"
           | _, _ => .panic "dns: b[s] (record length)"
       | _, _, _, _, _, _ => .panic "dns: b[s] (record header)"
 
-/-- `decodePacket(w, b)`: bytes consumed and bytes written -/
+/-- `decodePacket(w, b)`: bytes consumed and bytes written
+(`if len(b) < 13 { ueof }; _ = b[12]; q = int(b[4])<<8 | int(b[5]); …`) -/
 def decodePacket (b : Bytes) : R (Nat × Bytes) :=
   if b.length < 13 then .err .ueof
-  else match idx b 4, idx b 5, idx b 6, idx b 7, idx b 10, idx b 11 with
-    | some q1, some q0, some c1, some c0, some t1, some t0 =>
+  else match idx b 12, idx b 4, idx b 5, idx b 6, idx b 7, idx b 10, idx b 11 with
+    | some _, some q1, some q0, some c1, some c0, some t1, some t0 =>
       match questions ((q1 <<< 8) ||| q0) b 12 with
       | .ok s =>
         match answers ((c1 <<< 8) ||| c0) b s with
@@ -83,18 +126,21 @@ def decodePacket (b : Bytes) : R (Nat × Bytes) :=
       | .err e => .err e
       | .panic m => .panic m
       | .hang => .hang
-    | _, _, _, _, _, _ => .panic "dns: b[12]"
+    | _, _, _, _, _, _, _ => .panic "dns: b[12]"
 
 /-- `decodePackets`: `for i < len(b) { n, err := decodePacket(w, b[i:]); i += n }` -/
 def packets : Nat → Bytes → Nat → Bytes → R (Nat × Bytes)
   | 0, _, _, _ => .hang
   | fuel + 1, b, i, w =>
     if ¬ (i < b.length) then .ok (i, w)
-    else match decodePacket (b.drop i) with
-      | .ok (n, w') => packets fuel b (i + n) (w ++ w')
-      | .err e => .err e
-      | .panic m => .panic m
-      | .hang => .hang
+    else match sliceFromP b i with
+      | none => .panic "dns: b[i:]"
+      | some bi =>
+        match decodePacket bi with
+        | .ok (n, w') => packets fuel b (i + n) (w ++ w')
+        | .err e => .err e
+        | .panic m => .panic m
+        | .hang => .hang
 
 /-- `DNSTransform.Read(b, w)`: the bytes written to `w` -/
 def read (b : Bytes) : R Bytes :=
@@ -203,7 +249,12 @@ theorem additional_fine (t : Nat) (b : Bytes) (s : Nat) (w : Bytes) :
         simp only []
         split
         · exact ⟨trivial, fun r e => by cases e⟩
-        · have := ih (s + 12 + ((x <<< 8) ||| y)) (w ++ (b.drop (s + 12)).take ((x <<< 8) ||| y))
+        · -- the guard `s+i > len(b)` failed: that is the upper bound of `b[s : s+i]`
+          rename_i hg
+          rw [sliceP_some (show s + 12 ≤ s + 12 + ((x <<< 8) ||| y) by omega) (by omega)]
+          simp only []
+          have := ih (s + 12 + ((x <<< 8) ||| y))
+            (w ++ (b.drop (s + 12)).take (s + 12 + ((x <<< 8) ||| y) - (s + 12)))
           exact ⟨this.1, fun r e => by have := this.2 r e; omega⟩
 
 theorem decodePacket_fine (b : Bytes) :
@@ -218,7 +269,8 @@ theorem decodePacket_fine (b : Bytes) :
     obtain ⟨c0, e4⟩ := idx_some (show 7 < b.length by omega)
     obtain ⟨t1, e5⟩ := idx_some (show 10 < b.length by omega)
     obtain ⟨t0, e6⟩ := idx_some (show 11 < b.length by omega)
-    rw [e1, e2, e3, e4, e5, e6]
+    obtain ⟨_, e0⟩ := idx_some (show 12 < b.length by omega)
+    rw [e0, e1, e2, e3, e4, e5, e6]
     simp only []
     have hq := questions_fine ((q1 <<< 8) ||| q0) b 12 (by omega)
     cases hr : questions ((q1 <<< 8) ||| q0) b 12 with
@@ -248,6 +300,9 @@ theorem packets_fine (fuel : Nat) (b : Bytes) (i : Nat) (w : Bytes) (hf : 1 ≤ 
     by_cases h1 : ¬ (i < b.length)
     · simp only [h1, if_true]; trivial
     · simp only [h1, if_false]
+      -- the loop test `i < len(b)` is the bound of `b[i:]`
+      rw [sliceFromP_some (show i ≤ b.length by omega)]
+      simp only []
       have hd := decodePacket_fine (b.drop i)
       cases hr : decodePacket (b.drop i) with
       | ok r =>
@@ -303,10 +358,14 @@ theorem additional_len (t : Nat) (b : Bytes) (s : Nat) (w : Bytes) :
         simp only []
         split
         · intro e; cases e
-        · intro e
-          have := ih (s + 12 + ((x <<< 8) ||| y)) (w ++ (b.drop (s + 12)).take ((x <<< 8) ||| y)) r e
-          have hl : ((b.drop (s + 12)).take ((x <<< 8) ||| y)).length ≤ (x <<< 8) ||| y :=
-            List.length_take_le _ _
+        · rename_i hg
+          rw [sliceP_some (show s + 12 ≤ s + 12 + ((x <<< 8) ||| y) by omega) (by omega)]
+          simp only []
+          intro e
+          have := ih (s + 12 + ((x <<< 8) ||| y))
+            (w ++ (b.drop (s + 12)).take (s + 12 + ((x <<< 8) ||| y) - (s + 12))) r e
+          have hl : ((b.drop (s + 12)).take (s + 12 + ((x <<< 8) ||| y) - (s + 12))).length
+              ≤ s + 12 + ((x <<< 8) ||| y) - (s + 12) := List.length_take_le _ _
           simp only [List.length_append] at this
           omega
 
@@ -322,7 +381,8 @@ theorem decodePacket_len (b : Bytes) : ∀ r, decodePacket b = .ok r → r.2.len
     obtain ⟨c0, e4⟩ := idx_some (show 7 < b.length by omega)
     obtain ⟨t1, e5⟩ := idx_some (show 10 < b.length by omega)
     obtain ⟨t0, e6⟩ := idx_some (show 11 < b.length by omega)
-    rw [e1, e2, e3, e4, e5, e6]
+    obtain ⟨_, e0⟩ := idx_some (show 12 < b.length by omega)
+    rw [e0, e1, e2, e3, e4, e5, e6]
     simp only []
     cases hr : questions ((q1 <<< 8) ||| q0) b 12 with
     | ok s =>
@@ -351,6 +411,8 @@ theorem packets_len (fuel : Nat) (b : Bytes) (i : Nat) (w : Bytes) (hw : w.lengt
     by_cases h1 : ¬ (i < b.length)
     · simp only [h1, if_true]; intro e; injection e with e; subst e; exact hw
     · simp only [h1, if_false]
+      rw [sliceFromP_some (show i ≤ b.length by omega)]
+      simp only []
       cases hr : decodePacket (b.drop i) with
       | ok p =>
         have := decodePacket_len (b.drop i) p hr
